@@ -62,7 +62,8 @@ def mempool_binding(v, pid, w, tier, seed, chunk=12):
                 v.violation("Mempool%s/%s" % (group, detail), rp, "history %s line %d: %s" % (tid, at, bad[at - 1][:300]))
     v.cov["traces_validated_against_impl"] += len(traces) - rejected
     v.cov["evaluations"] += len(traces)
-    if not (cov.get("new.accepted") and cov.get("new.admission") and cov.get("recheck.accepted")):
+    if not rejected and not (cov.get("new.accepted") and cov.get("new.admission") and cov.get("recheck.accepted")):
+        # (with rejected histories the counters of their chunks are missing: the violations speak for themselves)
         raise Infra("mempool binding: an outcome class never occurred: %s" % cov)
     # self-test: a refused CheckTx that is reported to have changed the check state
     done = False
